@@ -583,3 +583,136 @@ Section SourceExampleV.
     destruct H as (r & A & B). congruence.
   Qed.
 End SourceExampleV.
+Print Assumptions C12_source_level_all_modes_nonvacuous.
+
+(** * Source level over the EXTENDED document grammar (composition with [C02_parse_unparse2_partial])
+
+    [Doc/DocGrammar2.v]: the core grammar plus environments (arguments, math
+    bodies), [$$ .. $$], specials, optional delimited arguments / star written or
+    absent, single-token mandatory arguments, verbatim macro / environments /
+    arguments, and COMMENTS IN FRONT OF ARGUMENTS ([Pre2 ws text post a]).
+
+    [sbc2 vb eqn i i'] ([Proofs/Compose2Comments.v]): same constructors, same
+    whitespace / name / post-space / delimiter / verbatim-text fields everywhere;
+    comment texts ([Cmt2], [Pre2]) free; and when [vb]: formulas ([Math2]) are
+    identical, environments whose name satisfies [eqn] are identical.
+    - [same_but_comments2 := sbc_doc2 false _]: comments free EVERYWHERE;
+    - [same_but_comments_outside_math2 lt := sbc_doc2 true (is_eqenv lt)]: comments
+      free everywhere except inside formulas and equation environments (the
+      environments rendered by [fmt_equation_environment], whose SOURCE is
+      reproduced in verbatim mode) — in particular free inside every other
+      environment (center, itemize, tabular ...). *)
+From PLV Require Import Doc.DocGrammar2 Proofs.Compose2Rel Proofs.Compose2Comments.
+
+(** the tree-level glue, refined: as [C12_relational] but the source slice of an
+    environment has to agree only for equation environments.  [vbr] / [eqn] may be
+    stronger than what the options / the database need. *)
+Theorem C12_relational2 : forall src src' lt cx o vbr eqn,
+  (match o_math o with MMVerbatim => true | _ => false end = true -> vbr = true) ->
+  (match o_math o with MMVerbatim => true | _ => false end = true -> forall nm, is_eqenv lt nm = true -> eqn nm = true) ->
+  forall n n', vrelq src src' (o_keep_comments o) vbr eqn n n' ->
+  forall sl st, node_text src lt cx o sl st n = node_text src' lt cx o sl st n'.
+Proof. exact vrelq_text_gen. Qed.
+Print Assumptions C12_relational2.
+
+(** the meanings of two such documents are related (any context, any parsing state, any [vb] / [eqn]) *)
+Theorem C12_trees_same_but_comments2 : forall cx vb eqn ps d d',
+  sbc_doc2 vb eqn d d' -> ok_doc2 cx d = true -> ok_doc2 cx d' = true ->
+  vallq (unparse2 d) (unparse2 d') false vb eqn (fst (tree_of2 cx ps 0 d)) (fst (tree_of2 cx ps 0 d')).
+Proof.
+  intros cx vb eqn ps d d' W O O'.
+  exact (tree_sbc2 cx (unparse2 d) (unparse2 d') vb eqn ps d d' W (ok_doc_arity2 cx d O) (ok_doc_arity2 cx d' O')
+           eq_refl eq_refl).
+Qed.
+Print Assumptions C12_trees_same_but_comments2.
+
+(** two documents of the extended grammar that differ only in the text of their
+    comments — anywhere: top level, groups, arguments, in front of arguments,
+    environment bodies, formulas — are converted to the same text when
+    [keep_comments] is off and the math mode is not verbatim.
+
+    PARTIAL: the extended grammar of [C02_parse_unparse2_partial] (see notes/C02.md for what it leaves out). *)
+Theorem C12_source_level2_partial : forall o d d',
+  same_but_comments2 d d' ->
+  ok_doc2 Gen.GenWalkerCtx.default_ctx d = true -> ok_doc2 Gen.GenWalkerCtx.default_ctx d' = true ->
+  o_keep_comments o = false -> o_math o <> MMVerbatim ->
+  exists r, latex_to_text o (unparse2 d) false = Some r /\ latex_to_text o (unparse2 d') false = Some r.
+Proof. exact source_level2. Qed.
+Print Assumptions C12_source_level2_partial.
+
+(** ALL four math modes: formulas and equation environments identical *)
+Theorem C12_source_level2_all_modes_partial : forall o d d',
+  same_but_comments_outside_math2 Gen.GenL2TCtx.default_l2tctx d d' ->
+  ok_doc2 Gen.GenWalkerCtx.default_ctx d = true -> ok_doc2 Gen.GenWalkerCtx.default_ctx d' = true ->
+  o_keep_comments o = false ->
+  exists r, latex_to_text o (unparse2 d) false = Some r /\ latex_to_text o (unparse2 d') false = Some r.
+Proof. exact source_level_all_modes2. Qed.
+Print Assumptions C12_source_level2_all_modes_partial.
+
+(** non-vacuity:
+    [a %c1\n\begin{center}b%c2\n\end{center}\textbf%c3\n{c}\sqrt[2%c4\n]{x} $x%c5\n$\begin{equation}y\end{equation}z\n]
+    — comments at top level, in an environment body, IN FRONT OF the argument of [\textbf], inside an
+    optional argument, inside a formula.  [dA], [dB] differ in c1..c4 (same formula): same output in
+    verbatim mode (the comment inside the formula is reproduced in both); [dA], [dC] differ in all
+    five: same output in text mode, different output in verbatim mode (so the hypothesis of the
+    all-modes theorem is needed) *)
+Section SourceExample2.
+  Open Scope N_scope.
+  Let mkd (c1 c2 c3 c4 c5 : str) : doc2 :=
+    {| d_items2 :=
+      [Text2 [] [97]; Cmt2 [32] c1 [10];
+       Env2 [] [] [99;101;110;116;101;114] [] [Text2 [] [98]; Cmt2 [] c2 [10]] [] [];
+       Mac2 [] [116;101;120;116;98;102] [] [Pre2 [] c3 [10] (Grp2 [] [Text2 [] [99]] [])];
+       Mac2 [] [115;113;114;116] [] [Brk2 [] 91 93 [Text2 [] [50]; Cmt2 [] c4 [10]] []; Grp2 [] [Text2 [] [120]] []];
+       Math2 [32] MDollar [Text2 [] [120]; Cmt2 [] c5 [10]] [];
+       Env2 [] [] [101;113;117;97;116;105;111;110] [] [Text2 [] [121]] [] [];
+       Text2 [] [122]];
+     d_trail2 := [10] |}.
+  Let dA := mkd [83] [73;78] [65] [66;66] [81].
+  Let dB := mkd [88;88;88] [] [] [67] [81].
+  Let dC := mkd [88;88;88] [] [] [67] [].
+  Let o_of (mm : mathmode) : opts :=
+    {| o_math := mm; o_keep_comments := false; o_sls := sls_bos; o_kbg := false; o_kbg_minlen := 0 |}.
+  Let cx0 := Gen.GenWalkerCtx.default_ctx.
+  Example C12_source_level2_nonvacuous :
+    same_but_comments2 dA dC /\ same_but_comments_outside_math2 Gen.GenL2TCtx.default_l2tctx dA dB
+    /\ ok_doc2 cx0 dA = true /\ ok_doc2 cx0 dB = true /\ ok_doc2 cx0 dC = true
+    /\ length (unparse2 dA) = 104%nat /\ unparse2 dA <> unparse2 dB /\ unparse2 dA <> unparse2 dC
+    (* text mode: [a \n\nb\n\nc√(x)x\n    y\nz\n] for all three *)
+    /\ option_map fst (latex_to_text (o_of MMText) (unparse2 dA) false)
+       = Some [97; 32; 10; 10; 98; 10; 10; 99; 8730; 40; 120; 41; 120; 10; 32; 32; 32; 32; 121; 10; 122; 10]
+    /\ latex_to_text (o_of MMText) (unparse2 dA) false = latex_to_text (o_of MMText) (unparse2 dC) false
+    (* verbatim mode: [a \n\nb\n\nc√(x)$x%Q\n$\n\begin{equation}y\end{equation}\nz\n] *)
+    /\ option_map fst (latex_to_text (o_of MMVerbatim) (unparse2 dA) false)
+       = Some [97; 32; 10; 10; 98; 10; 10; 99; 8730; 40; 120; 41; 36; 120; 37; 81; 10; 36; 10; 92; 98; 101; 103; 105;
+               110; 123; 101; 113; 117; 97; 116; 105; 111; 110; 125; 121; 92; 101; 110; 100; 123; 101; 113; 117; 97;
+               116; 105; 111; 110; 125; 10; 122; 10]
+    /\ latex_to_text (o_of MMVerbatim) (unparse2 dA) false = latex_to_text (o_of MMVerbatim) (unparse2 dB) false
+    /\ latex_to_text (o_of MMVerbatim) (unparse2 dA) false <> latex_to_text (o_of MMVerbatim) (unparse2 dC) false.
+  Proof.
+    assert (W1 : same_but_comments2 dA dC)
+      by (unfold same_but_comments2, sbc_doc2; cbn; repeat split; discriminate).
+    assert (W2 : same_but_comments_outside_math2 Gen.GenL2TCtx.default_l2tctx dA dB)
+      by (unfold same_but_comments_outside_math2, sbc_doc2; cbn; repeat split; try discriminate;
+          try (intros _ Q; vm_compute in Q; discriminate)).
+    split; [exact W1|]. split; [exact W2|].
+    split; [vm_compute; reflexivity|]. split; [vm_compute; reflexivity|]. split; [vm_compute; reflexivity|].
+    split; [vm_compute; reflexivity|]. split; [vm_compute; discriminate|]. split; [vm_compute; discriminate|].
+    split; [vm_compute; reflexivity|].
+    split.
+    { assert (H : exists r, latex_to_text (o_of MMText) (unparse2 dA) false = Some r
+                            /\ latex_to_text (o_of MMText) (unparse2 dC) false = Some r)
+        by (apply C12_source_level2_partial;
+            [exact W1 | vm_compute; reflexivity | vm_compute; reflexivity | reflexivity | discriminate]).
+      destruct H as (r & A & B). congruence. }
+    split; [vm_compute; reflexivity|].
+    split.
+    { assert (H : exists r, latex_to_text (o_of MMVerbatim) (unparse2 dA) false = Some r
+                            /\ latex_to_text (o_of MMVerbatim) (unparse2 dB) false = Some r)
+        by (apply C12_source_level2_all_modes_partial;
+            [exact W2 | vm_compute; reflexivity | vm_compute; reflexivity | reflexivity]).
+      destruct H as (r & A & B). congruence. }
+    vm_compute. discriminate.
+  Qed.
+End SourceExample2.
+Print Assumptions C12_source_level2_nonvacuous.
